@@ -4,8 +4,16 @@ use crate::*;
 
 fn infos() -> [PlayerInfosetData<u8, u8>; 2] {
     [
-        PlayerInfosetData { infoset: 10, actions: Box::new([0u8, 1]) as Box<[u8]>, prev_infoset: None },
-        PlayerInfosetData { infoset: 11, actions: Box::new([4u8, 5, 6]) as Box<[u8]>, prev_infoset: Some(0) },
+        PlayerInfosetData {
+            infoset: 10,
+            actions: Box::new([0u8, 1]) as Box<[u8]>,
+            prev_infoset: None,
+        },
+        PlayerInfosetData {
+            infoset: 11,
+            actions: Box::new([4u8, 5, 6]) as Box<[u8]>,
+            prev_infoset: Some(0),
+        },
     ]
 }
 
@@ -26,24 +34,45 @@ fn c13_infoset_iter_len_and_order() {
     let mut it = NamedStrategyIter::new(&infos[a..b], &probs[starts[a]..starts[b]], &singles[..c]);
     let total = (b - a) + c;
     let mut yielded = 0usize;
-    kani::cover!(a == 0 && b == 2 && c == 2, "two multi-action and two single-action infosets");
+    kani::cover!(
+        a == 0 && b == 2 && c == 2,
+        "two multi-action and two single-action infosets"
+    );
     kani::cover!(b - a == 1 && c == 0, "one multi-action infoset only");
     kani::cover!(b == a && c == 1, "single-action infosets only");
     loop {
         let (lo, hi) = it.size_hint();
-        assert!(hi == Some(lo), "C13 len: infoset iterator size_hint is not exact");
-        assert!(lo == total - yielded, "C13 len: advertised number of infosets != number still yielded");
+        assert!(
+            hi == Some(lo),
+            "C13 len: infoset iterator size_hint is not exact"
+        );
+        assert!(
+            lo == total - yielded,
+            "C13 len: advertised number of infosets != number still yielded"
+        );
         match it.next() {
             None => {
-                assert!(yielded == total, "C13 complete: iterator ended before every infoset was listed");
+                assert!(
+                    yielded == total,
+                    "C13 complete: iterator ended before every infoset was listed"
+                );
                 break;
             }
             Some((name, _acts)) => {
-                assert!(yielded < total, "C13 complete: more infosets listed than exist");
+                assert!(
+                    yielded < total,
+                    "C13 complete: more infosets listed than exist"
+                );
                 if yielded < b - a {
-                    assert!(*name == infos[a + yielded].infoset, "C13 order: wrong infoset name");
+                    assert!(
+                        *name == infos[a + yielded].infoset,
+                        "C13 order: wrong infoset name"
+                    );
                 } else {
-                    assert!(*name == singles[yielded - (b - a)].0, "C13 order: wrong single-action infoset name");
+                    assert!(
+                        *name == singles[yielded - (b - a)].0,
+                        "C13 order: wrong single-action infoset name"
+                    );
                 }
                 yielded += 1;
             }
@@ -63,7 +92,11 @@ fn c13_action_iter_len_and_items() {
     let probs: [f64; 5] = [any_prob(), any_prob(), any_prob(), any_prob(), any_prob()];
     let mut it = NamedStrategyIter::new(&infos[..], &probs[..], &singles[..]);
     let which: bool = kani::any();
-    let (idx, s, e) = if which { (1usize, 2usize, 5usize) } else { (0usize, 0usize, 2usize) };
+    let (idx, s, e) = if which {
+        (1usize, 2usize, 5usize)
+    } else {
+        (0usize, 0usize, 2usize)
+    };
     if which {
         let _ = it.next();
     }
@@ -73,7 +106,10 @@ fn c13_action_iter_len_and_items() {
             remaining += 1;
         }
     }
-    kani::cover!(which && remaining == 1 && probs[4] > 0.0, "only the last action has positive probability");
+    kani::cover!(
+        which && remaining == 1 && probs[4] > 0.0,
+        "only the last action has positive probability"
+    );
     kani::cover!(which && remaining == 3, "all three actions positive");
     kani::cover!(!which && remaining == 0, "no positive action (degenerate)");
     match it.next() {
@@ -83,20 +119,38 @@ fn c13_action_iter_len_and_items() {
             let mut pos = s;
             loop {
                 let (alo, ahi) = acts.size_hint();
-                assert!(ahi == Some(alo), "C13 len: action iterator size_hint is not exact");
-                assert!(alo == remaining, "C13 len: advertised number of actions != number still yielded");
+                assert!(
+                    ahi == Some(alo),
+                    "C13 len: action iterator size_hint is not exact"
+                );
+                assert!(
+                    alo == remaining,
+                    "C13 len: advertised number of actions != number still yielded"
+                );
                 match acts.next() {
                     None => {
-                        assert!(remaining == 0, "C13 complete: positive-probability action missing");
+                        assert!(
+                            remaining == 0,
+                            "C13 complete: positive-probability action missing"
+                        );
                         break;
                     }
                     Some((act, p)) => {
                         while pos < e && !(probs[pos] > 0.0) {
                             pos += 1;
                         }
-                        assert!(pos < e, "C13 complete: more actions listed than have positive probability");
-                        assert!(*act == infos[idx].actions[pos - s], "C13 items: wrong action name");
-                        assert!(p.to_bits() == probs[pos].to_bits(), "C13 items: wrong probability");
+                        assert!(
+                            pos < e,
+                            "C13 complete: more actions listed than have positive probability"
+                        );
+                        assert!(
+                            *act == infos[idx].actions[pos - s],
+                            "C13 items: wrong action name"
+                        );
+                        assert!(
+                            p.to_bits() == probs[pos].to_bits(),
+                            "C13 items: wrong probability"
+                        );
                         pos += 1;
                         remaining -= 1;
                     }
@@ -124,16 +178,34 @@ fn c13_single_action_items() {
     match it.next() {
         None => assert!(false, "C13 complete: single-action infoset missing"),
         Some((name, mut acts)) => {
-            assert!(*name == singles[idx].0, "C13 order: wrong single-action infoset name");
-            assert!(acts.size_hint() == (1, Some(1)), "C13 len: single-action iterator length");
+            assert!(
+                *name == singles[idx].0,
+                "C13 order: wrong single-action infoset name"
+            );
+            assert!(
+                acts.size_hint() == (1, Some(1)),
+                "C13 len: single-action iterator length"
+            );
             match acts.next() {
                 Some((act, p)) => {
-                    assert!(*act == singles[idx].1 && p == 1.0, "C13 items: single action must have probability one");
+                    assert!(
+                        *act == singles[idx].1 && p == 1.0,
+                        "C13 items: single action must have probability one"
+                    );
                 }
-                None => assert!(false, "C13 complete: single-action infoset without its action"),
+                None => assert!(
+                    false,
+                    "C13 complete: single-action infoset without its action"
+                ),
             }
-            assert!(acts.size_hint() == (0, Some(0)), "C13 len: single-action iterator length after its item");
-            assert!(acts.next().is_none(), "C13 complete: single-action infoset with two actions");
+            assert!(
+                acts.size_hint() == (0, Some(0)),
+                "C13 len: single-action iterator length after its item"
+            );
+            assert!(
+                acts.next().is_none(),
+                "C13 complete: single-action infoset with two actions"
+            );
         }
     }
 }
@@ -154,15 +226,27 @@ fn c13_round_trip_from_named_eq() {
     kani::assume(d <= 4);
     let p1 = [a as f64 / 4.0, (4 - a) as f64 / 4.0];
     let p2 = [d as f64 / 4.0, (4 - d) as f64 / 4.0];
-    let s = Strategies { game: &game, probs: [Box::new(p1) as Box<[f64]>, Box::new(p2) as Box<[f64]>] };
-    kani::cover!(a == 0 && d == 4, "pure profile with zero-probability actions");
+    let s = Strategies {
+        game: &game,
+        probs: [Box::new(p1) as Box<[f64]>, Box::new(p2) as Box<[f64]>],
+    };
+    kani::cover!(
+        a == 0 && d == 4,
+        "pure profile with zero-probability actions"
+    );
     kani::cover!(a == 2 && d == 3, "fully mixed profile");
     let back = game.from_named_eq(s.as_named());
     match back {
         Ok(t) => {
             for i in 0..2 {
-                assert!(t.probs[0][i].to_bits() == p1[i].to_bits(), "C13 round-trip: player one differs after import");
-                assert!(t.probs[1][i].to_bits() == p2[i].to_bits(), "C13 round-trip: player two differs after import");
+                assert!(
+                    t.probs[0][i].to_bits() == p1[i].to_bits(),
+                    "C13 round-trip: player one differs after import"
+                );
+                assert!(
+                    t.probs[1][i].to_bits() == p2[i].to_bits(),
+                    "C13 round-trip: player two differs after import"
+                );
             }
             core::mem::forget(t);
         }
